@@ -1536,7 +1536,7 @@ func (w *envelopingWriter) maybeInit() {
 		return
 	}
 	w.current = w.w
-	w.remainingBytes = envelopeLen
+	w.remainingBytes = w.rw.contentLen
 }
 
 func (w *envelopingWriter) handleTrailer() error {
